@@ -10,6 +10,17 @@ Tie/search   harness/mem/memdrive.c, linked against the NON-sanitized build of t
              inputs through harness/common/nevrun.c on the ASan build with LeakSanitizer on.
              Which source construct reaches which %destructor / *_delete is NOT modelled: that
              the C code produces balanced traces is observed on the inputs run, not proved.
+Families     (besides corpus / mutation / grammar-driven errors / error paths by construct / FFI):
+             entry-args  entries declaring every parameter kind an entry may have (int, float, string, string array), run WITH
+                         arguments that live in HOST buffers allocated outside the monitored bracket: 1..3 runs per VM, 1..2 VMs,
+                         re-prepare, nev_prepare_argc_argv or direct prog->params[]; a free()/realloc() of a host buffer by libnev
+                         is a free of an unknown block for the monitor (and is withheld, reported as @@HOST), the buffers are
+                         compared with copies afterwards.  Keys host-memory-freed:<function>, host-memory-written.
+             heap-sweep  allocating probe programs x EVERY heap size from 6 below the smallest one that completes to 64 above
+                         (+ sizes 1, 2, 3): the only sizes at which cell mem_size-1 holds an object at vm_delete.  memdrive
+                         prints the occupancy (@@HEAP) before vm_delete; coverage.heap_size_sweep shows the boundary was hit.
+                         Tie of Properties_C16b.v: measure_gc_delete_bounds() reads the loop bounds of gc_delete.
+                         Key leak:after-parse:vm-heap-object.
 """
 LEVEL = "proof"
 
@@ -344,6 +355,165 @@ def error_path_cases():
 
 
 # ---------------------------------------------------------------------------------------------
+# entry functions with parameters, run WITH arguments that the host owns.  The kinds an entry may declare
+# (front/typecheck.c func_entry_check_type; back/nev.c nev_prepare_argc_argv; back/vmexec.c vm_execute_push_param):
+# int, float, string in any mix (FUNC_ENTRY_TYPE_PARAM_LIST) or one string array (FUNC_ENTRY_TYPE_STRING_ARRAY).
+LONGARG = "abcdefghij" * 30
+ENTRY_PROGRAMS = [
+    # (name, entry, args, source)
+    ("greet", "main", ["world", "3"], "func main(name : string, n : int) -> int { prints(\"hello \" + name + \"\\n\"); length(name) + n }"),
+    ("string-kept-in-global", "main", ["tail"], "var keep = \"\";\nfunc main(s : string) -> int { keep = keep + s; length(keep) }"),
+    ("string-aliased-in-global", "main", ["alias"], "var keep = \"x\";\nfunc main(s : string) -> int { keep = s; length(keep) }"),
+    ("string-ignored", "main", ["unused", "2.5"], "func main(s : string, x : float) -> float { x * 2.0 }"),
+    ("two-strings-into-array", "main", ["left", "right"], "func main(a : string, b : string) -> int { let arr = [ a, b, a + b ] : string; length(arr[2]) }"),
+    ("string-in-record-in-global", "main", ["field"], "record R { s : string; }\nvar r = R(\"x\");\nfunc main(s : string) -> int { r = R(s); length(r.s) }"),
+    ("string-in-closure", "main", ["captured"], "func main(s : string) -> int { let f = let func (k : int) -> int { length(s) + k }; f(1) }"),
+    ("string-indexed", "main", ["index"], "func main(s : string) -> int { ord(s[0]) + ord(s[length(s) - 1]) }"),
+    ("long-string", "main", [LONGARG, "1"], "func main(s : string, n : int) -> int { length(s + s) + n }"),
+    ("numbers-only", "main", ["6", "1.5", "7"], "func main(a : int, x : float, b : int) -> float { x * 2.0 + 1.0 }"),
+    ("int-only", "main", ["41"], "func main(a : int) -> int { a + 1 }"),
+    ("string-last-of-four", "main", ["1", "2.0", "3", "fourth"], "func main(a : int, x : float, b : int, s : string) -> int { a + b + length(s) }"),
+    ("string-then-division-by-zero", "main", ["boom", "0"], "func main(s : string, d : int) -> int { prints(s + \"\\n\"); 10 / d }"),
+    ("string-then-assert", "main", ["claim", "0"], "func main(s : string, d : int) -> int { let t = s + s; assert(d == 1); length(t) }"),
+    ("string-then-caught", "main", ["safe", "0"], "func dv(s : string, d : int) -> int { length(s) / d } catch (division_by_zero) { length(s) }\nfunc main(s : string, d : int) -> int { dv(s, d) }"),
+    ("other-entry", "greet", ["you"], "func greet(who : string) -> int { prints(\"hi \" + who + \"\\n\"); length(who) }\nfunc main() -> int { 0 }"),
+    ("string-array", "main", ["one", "two", "three"], "func main(argv[argc] : string) -> int { var t = 0; for (a in argv) { t = t + length(a) }; t + argc }"),
+    ("string-array-kept", "main", ["p", "q"], "var first = \"\";\nfunc main(argv[argc] : string) -> int { first = argv[0]; length(first) + argc }"),
+    ("string-array-ignored", "main", ["x", "y", "z"], "func main(argv[argc] : string) -> int { 7 }"),
+    ("string-array-then-exception", "main", ["only"], "func main(argv[argc] : string) -> int { length(argv[5]) }"),
+    ("too-few-arguments", "main", ["lonely"], "func main(s : string, n : int) -> int { length(s) + n }"),
+    ("no-such-entry", "absent", ["a"], "func main(s : string) -> int { length(s) }"),
+]
+ENTRY_SHAPES = ["", "runs=3", "vms=2", "runs=2 vms=2", "reprepare runs=3", "reprepare runs=2 vms=2", "mode=params", "mode=params runs=3 vms=2",
+                "mode=params reprepare runs=2", "mem=300 stack=100 runs=2"]
+
+
+def entry_param_cases():
+    out = []
+    for name, entry, args, src in ENTRY_PROGRAMS:
+        for k, shape in enumerate(ENTRY_SHAPES):
+            if "mode=params" in shape and "argv[argc]" in src:
+                continue              # a string array can only be handed over by nev_prepare_argc_argv
+            opts = ("entry=%s args=%s %s" % (entry, ",".join(args), shape)).strip()
+            out.append(("A.%s.%d" % (name, k), "entry-args:" + name, src, opts, {"entry": entry, "args": [a[:24] for a in args], "shape": shape or "one run"}))
+    return out
+
+
+# ---------------------------------------------------------------------------------------------
+# heap-size sweep: allocating probe programs x every heap size around the smallest one that completes
+HEAP_PROBES = [
+    ("array40", "func main() -> int { let a = {[ 40 ]} : int; a[3] + a[39] }"),
+    ("array-literal", "func main() -> int { let a = [ 1, 2, 3, 4, 5, 6, 7, 8 ] : int; a[0] + a[7] }"),
+    ("record-list", "record L { v : int; n : L; }\nfunc grow(l : L, k : int) -> L { k == 0 ? l : grow(L(k, l), k - 1) }\nfunc main() -> int { let l = grow(nil, 30); l.v }"),
+    ("string-concat", "func main() -> int { var s = \"\"; var i = 0; while (i < 12) { s = s + \"ab\"; i = i + 1 }; length(s) }"),
+    ("string-array", "func main() -> int { let a = [ \"one\", \"two\", \"three\", \"four\" ] : string; length(a[3]) }"),
+    ("closures", "func mk(k : int) -> (int) -> int { let func (x : int) -> int { x + k } }\nfunc main() -> int { let f = mk(1); let g = mk(2); let h = mk(3); f(1) + g(2) + h(3) }"),
+    ("matrix", "func main() -> int { let m = {[ 6, 6 ]} : int; m[5, 5] }"),
+    ("listcomp", "func main() -> int { let a = [ i * i | i in [ 1, 2, 3, 4, 5, 6 ] : int ] : int; a[5] }"),
+    ("global-keeps", "var keep = [ 1, 2, 3 ] : int;\nfunc main() -> int { keep = [ 4, 5, 6, 7, 8, 9, 10, 11 ] : int; keep[7] }"),
+    ("garbage-loop", "func main() -> int { var i = 0; var t = 0; while (i < 40) { let a = [ i, i + 1 ] : int; t = t + a[1]; i = i + 1 }; t }"),
+    ("ends-index-exception", "func main() -> int { let a = [ 1, 2, 3, 4, 5, 6 ] : int; let s = \"x\" + \"y\"; a[9] }"),
+    ("ends-division-exception", "func d(a : int) -> int { let t = [ \"x\", \"y\" ] : string; 10 / a }\nfunc main() -> int { d(0) }"),
+    ("ends-assert", "func main() -> int { let a = [ 1, 2, 3, 4 ] : int; let s = \"a\" + \"b\"; assert(a[0] == 2); 0 }"),
+    ("caught-exception", "func d(a : int) -> int { let t = [ 1, 2, 3 ] : int; t[a] } catch (index_out_of_bounds) { let u = [ 7, 8 ] : int; u[0] }\nfunc main() -> int { d(5) }"),
+    ("nothing", "func main() -> int { 0 }"),
+]
+
+
+def measure_gc_delete_bounds(repo):
+    """lo and cut of `for (i = lo; i < collector->mem_size - cut; i++)` in gc_delete (back/gc.c): the parameters of
+    Mem/GcDelete.v gc_delete_freed_bounds"""
+    try:
+        src = open(os.path.join(repo, "back", "gc.c")).read()
+    except OSError:
+        return None
+    b = re.search(r"void\s+gc_delete\s*\(", src)
+    if not b:
+        return None
+    e = src.find("\n}\n", b.start())
+    src = src[b.start():e if e > 0 else len(src)]
+    m = re.search(r"void\s+gc_delete\s*\(.*?for\s*\(\s*i\s*=\s*(\d+)\s*;\s*i\s*(<=?)\s*collector->mem_size\s*(?:-\s*(\d+))?\s*;", src, re.S)
+    if not m:
+        return None
+    cut = int(m.group(3) or 0) - (1 if m.group(2) == "<=" else 0)
+    return {"lo": int(m.group(1)), "cut": cut, "loop": " ".join(m.group(0)[m.group(0).rfind("for"):].split())}
+
+
+def heap_case(name, src, size, phase):
+    return MCase("H.%s.%d" % (name, size), "heap-sweep:" + name, src.encode(), None, "mem=%d" % size, {"probe": name, "size": size, "phase": phase})
+
+
+def heap_sweep_cases(drv, mon, workdir, timeout, margin=64):
+    """-> (cases of the fine sweep, info).  Coarse pass first (sizes 1, 2, 3 and every 4th size up to 640) to find, per
+    probe, the smallest heap that completes and the size from which the collector never has to run (cells in use at
+    teardown stop growing); then EVERY size from 6 below the former to `margin` above it, and 6 either side of the latter."""
+    coarse = []
+    for name, src in HEAP_PROBES:
+        for size in [1, 2, 3] + list(range(4, 640, 4)):
+            coarse.append(heap_case(name, src, size, "coarse"))
+    obs = run_mem(drv, mon, coarse, workdir, timeout=timeout, tag="hc")
+    fine, info = [], {}
+    for name, src in HEAP_PROBES:
+        done = {}
+        for c in coarse:
+            if c.meta["probe"] == name:
+                o = obs.get(c.id)
+                if o is not None and o.heap and "done" in o.phases:
+                    done[c.meta["size"]] = o.heap[-1]["used"]
+        if not done:
+            info[name] = {"smallest_completing(coarse)": None}
+            continue
+        first = min(done)
+        plateau = max(done.values())
+        nogc = min(sz for sz, u in done.items() if u == plateau)
+        sizes = set(range(max(4, first - 6), first + margin + 1)) | set(range(max(4, nogc - 6), nogc + 7)) | {1, 2, 3}
+        info[name] = {"smallest_completing(coarse)": first, "collector_idle_from(coarse)": nogc, "cells_in_use_without_collection": plateau}
+        for size in sorted(sizes):
+            fine.append(heap_case(name, src, size, "fine"))
+    return fine, info
+
+
+def heap_sweep_matrix(cases, obs, info):
+    """the (program x heap size) distribution with the occupancy of the boundary cells at teardown"""
+    out = {}
+    for c in cases:
+        if not c.cls.startswith("heap-sweep:"):
+            continue
+        name, size = c.meta["probe"], c.meta["size"]
+        o = obs.get(c.id)
+        verdict = judge(c, o)[0]
+        e = out.setdefault(name, dict(info.get(name, {}), sizes_run=0, reached_vm_delete=0, ended_in_exit_no_teardown=0, verdicts={},
+                                      outcomes={}, smallest_completing=None, teardown_with_last_cell_in_use=[],
+                                      teardown_with_cell_1_in_use=0, teardown_with_every_cell_in_use=[], cells_in_use_at_teardown={}))
+        e["sizes_run"] += 1
+        e["verdicts"][verdict] = e["verdicts"].get(verdict, 0) + 1
+        if o is None or not o.heap or "done" not in o.phases:
+            e["ended_in_exit_no_teardown"] += 1
+            continue
+        h = o.heap[-1]
+        oc = outcome_class(o)
+        e["outcomes"][oc] = e["outcomes"].get(oc, 0) + 1
+        e["reached_vm_delete"] += 1
+        e["smallest_completing"] = size if e["smallest_completing"] is None else min(size, e["smallest_completing"])
+        if h["last"]:
+            e["teardown_with_last_cell_in_use"].append(size)
+        if h["first"]:
+            e["teardown_with_cell_1_in_use"] += 1
+        if h["used"] == h["size"] - 1:
+            e["teardown_with_every_cell_in_use"].append(size)
+        e["cells_in_use_at_teardown"][str(size)] = h["used"]
+    for e in out.values():
+        ks = sorted(e["cells_in_use_at_teardown"], key=int)
+        if len(ks) > 14:          # keep the evidence readable: the boundary region and the ends
+            keep = set(ks[:10] + ks[-2:] + [str(x) for x in e["teardown_with_last_cell_in_use"][:12]])
+            e["cells_in_use_at_teardown"] = {k: e["cells_in_use_at_teardown"][k] for k in ks if k in keep}
+    return {"rule": "every probe is run at heap sizes 1, 2, 3 and at EVERY size from 6 cells below the smallest heap that completes to 64 "
+                    "above it (+ 6 either side of the size from which the collector stays idle); each run: vm_new(size), nev_execute, "
+                    "vm_delete, program_delete under the allocation monitor; runs that end in libnev's exit(1) `out of memory` are "
+                    "counted, not judged", "probes": out}
+
+
+# ---------------------------------------------------------------------------------------------
 class MCase:
     __slots__ = ("id", "cls", "data", "path", "opts", "meta")
 
@@ -352,7 +522,7 @@ class MCase:
 
 
 class MObs:
-    __slots__ = ("id", "status", "phases", "outcome", "monitor", "events", "sites", "out", "overflow")
+    __slots__ = ("id", "status", "phases", "outcome", "monitor", "events", "sites", "out", "overflow", "host", "heap")
 
     def __init__(self, cid):
         self.id = cid
@@ -361,6 +531,7 @@ class MObs:
         self.outcome = self.monitor = self.out = None
         self.events = 0
         self.overflow = False
+        self.host, self.heap = [], []
 
 
 def write_mbatch(path, cases):
@@ -395,6 +566,14 @@ def parse_mem_output(text):
             cur.out = l.split(" ", 2)[2] if l.count(" ") >= 2 else ""
         elif l.startswith("@@OVERFLOW"):
             cur.overflow = True
+        elif l.startswith("@@HOST "):
+            a = l.split(" ")
+            cur.host.append((a[2], a[3].split(",") if len(a) > 3 else []))
+        elif l.startswith("@@HEAP "):
+            m = re.match(r"@@HEAP \S+ vm=(\d+) size=(\d+) used=(\d+) first=(\d) last=(\d)", l)
+            if m:
+                cur.heap.append({"vm": int(m.group(1)), "size": int(m.group(2)), "used": int(m.group(3)),
+                                 "first": int(m.group(4)), "last": int(m.group(5))})
         elif l.startswith("@@END "):
             cur.status = l.split("status=")[1].strip()
             cur = None
@@ -494,9 +673,11 @@ def short_loc(loc):
 
 
 def judge(case, o):
-    """-> (kind, detail) kind: ok | leak | reject | exit-no-teardown | crashed | timeout | skipped"""
+    """-> (kind, detail) kind: ok | leak | reject | hostmem | exit-no-teardown | crashed | timeout | skipped"""
     if o is None or o.status is None:
         return "skipped", "no record"
+    if o.host:
+        return "hostmem", "; ".join(sorted({h[0] for h in o.host}))       # libnev freed / wrote memory the host owns
     if o.status == "timeout":
         return "timeout", None
     if o.overflow:
@@ -585,6 +766,20 @@ def attribute(case, o, kind, sym, parser_y):
     cannot belong to a leaked parser node (acquired after the last leaked node) gets its own key, so a
     new lost token is not hidden behind a known one.  Reject: the function performing the bad free."""
     oc = "parse-error" if outcome_class(o) == "parse-error" else ("no-outcome" if o.outcome is None else "after-parse")
+    if kind == "hostmem":
+        keys = []
+        for what, addrs in o.host:
+            if what == "freed":
+                frames = sym.resolve(addrs) if addrs else []
+                fns = [f for f, _ in frames if not f.startswith("__wrap_")]
+                owner = next((f for f in fns if f not in ("object_delete", "free")), fns[0] if fns else "unknown")
+                key = "host-memory-freed:" + owner
+                desc = ["free()/realloc() of a buffer owned by the host in " + " <- ".join(describe([fr for fr in frames if not fr[0].startswith("__wrap_")])[:5])]
+            else:
+                key, desc = "host-memory-written", ["host buffer #%s differs from the copy taken before the run" % (addrs[0] if addrs else "?")]
+            if key not in [k for k, _ in keys]:
+                keys.append((key, desc))
+        return keys
     if not o.sites:
         return [("%s:%s:unattributed" % (kind, oc), [])]
     if kind != "leak":
@@ -613,6 +808,8 @@ def attribute(case, o, kind, sym, parser_y):
             return "token:scanner-rule:" + (c05.slug(rule, 3) if c05.slug(rule, 3) != "none" else "other"), frames, True
         if fn.startswith("string_") and any(f == "lex_scan" for f, _ in frames[1:3]):
             return "scanner-string-buffer", frames, False
+        if len(frames) > 1 and frames[1][0].startswith("gc_alloc"):
+            return "vm-heap-object", frames, False          # an object of the VM heap that gc_delete did not release
         for f, l in frames[1:]:
             src, line = short_loc(l)
             if f == "yyparse" and src.endswith("parser.y"):
@@ -651,7 +848,9 @@ def build_cases(ctx, rng, workdir, scale):
     samples = c05.sample_sources()
     cdir = os.path.join(common.VERIF, "corpus", "C16")
     for p in sorted(glob.glob(os.path.join(cdir, "*.nev"))):
-        cases.append(MCase("K." + os.path.basename(p)[:-4], "kept-corpus", open(p, "rb").read(), None))
+        optf = p[:-4] + ".opts"           # optional: how to run it (entry=, args=, runs=, vms=, mem=, ...)
+        opts = open(optf).read().strip() if os.path.exists(optf) else ""
+        cases.append(MCase("K." + os.path.basename(p)[:-4], "kept-corpus", open(p, "rb").read(), None, opts))
     for name, src in samples:
         if b"\x00" in src:
             continue
@@ -719,6 +918,9 @@ def build_cases(ctx, rng, workdir, scale):
     for name, phase, fault, T, cname, src in error_path_cases():
         cases.append(MCase("X." + name, "errpath:" + phase, src.encode("latin-1"), None, "",
                            {"phase": phase, "fault": fault, "type": T, "context": cname}))
+    # entry functions with parameters, run with arguments owned by the host
+    for cid, cls, src, opts, meta in entry_param_cases():
+        cases.append(MCase(cid, cls, src.encode(), None, opts, meta))
     # foreign calls: every call shape x (normal | ffi_fail caught | unhandled | in a loop | missing library/symbol)
     try:
         lib = build_ffi_lib(workdir)
@@ -890,6 +1092,16 @@ def _run(ctx, drv, mon, workdir, t0):
         cases = [MCase("replay", r.get("class", "replay"), data, r.get("never_path"), r.get("opts", ""))]
     else:
         cases = build_cases(ctx, rng, workdir, scale)
+        gb = measure_gc_delete_bounds(common.REPO)
+        ctx.coverage["gc_delete_loop_measured(Mem/GcDelete.v)"] = gb
+        if gb is None:
+            ctx.correspondence_broken("gc_delete-loop-not-measurable", "the loop of gc_delete in back/gc.c no longer has the shape of Mem/GcDelete.v")
+        elif not (gb["lo"] <= 1 and gb["cut"] == 0):
+            ctx.correspondence_broken("gc_delete-loop-bounds(Properties_C16b.gc_delete_bounds_complete)",
+                                      {"measured": gb, "meaning": "hypothesis lo <= 1, cut = 0 fails; by gc_delete_cut_leaks a heap filled to the "
+                                       "brim keeps the object of its last cell: the heap-size sweep looks for such a run"})
+        hcases, heap_info = heap_sweep_cases(drv, mon, workdir, timeout)
+        cases += hcases
     t_gen = time.time()
     obs = run_mem(drv, mon, cases, workdir, timeout=timeout)
     t_run = time.time()
@@ -909,14 +1121,30 @@ def _run(ctx, drv, mon, workdir, t0):
             oc = outcome_class(o) if "done" in o.phases else ("exit-no-teardown" if k == "exit-no-teardown" else k)
             by_outcome.setdefault(oc, {}).setdefault(k, 0)
             by_outcome[oc][k] += 1
-            if k in ("ok", "leak", "reject") and o.events > 0:
+            if k in ("ok", "leak", "reject", "hostmem") and o.events > 0:
                 nontrivial.add(hashlib.sha1(c.data + (c.path or "").encode() + c.opts.encode()).digest())
-        if k in ("leak", "reject"):
+        if k in ("leak", "reject", "hostmem"):
             failing.append((c, o, k))
         if k == "ok" and len(ctx.coverage["samples"]) < 5 and len(c.data) < 160 and c.cls.startswith(("runtime", "generated", "mutate")):
             ctx.sample({"class": c.cls, "input": c.data.decode("latin-1"), "outcome": o.outcome, "events": o.events, "monitor": o.monitor})
     ctx.count(evaluations=len(cases), nontrivial=len(nontrivial))
     ctx.coverage["error_paths_by_construct"] = error_path_matrix(cases, obs)
+    if not getattr(ctx, "replay", None):
+        ctx.coverage["heap_size_sweep"] = heap_sweep_matrix(cases, obs, heap_info)
+        ea = {}
+        for c in cases:
+            if c.cls.startswith("entry-args:"):
+                e = ea.setdefault(c.cls.split(":", 1)[1], {"histories": 0, "verdicts": {}, "outcomes": {}})
+                e["histories"] += 1
+                v = judge(c, obs.get(c.id))[0]
+                e["verdicts"][v] = e["verdicts"].get(v, 0) + 1
+                oc = outcome_class(obs[c.id]) if obs.get(c.id) is not None else "no-record"
+                e["outcomes"][oc] = e["outcomes"].get(oc, 0) + 1
+        ctx.coverage["entry_parameters_owned_by_host"] = {
+            "rule": "entries declaring every parameter kind an entry may have (int, float, string in any mix; one string array) x histories "
+                    "(1..3 runs on a VM, 1..2 VMs, re-prepare before every run, nev_prepare_argc_argv or direct prog->params[]), arguments in "
+                    "host buffers allocated outside the monitored bracket; oracle: monitor accept (a free of a host buffer is a free of an "
+                    "unknown block), host buffers byte-identical afterwards, no leak", "shapes": ENTRY_SHAPES, "programs": ea}
     # attribution needs deeper stacks: failing cases are grouped by the cheap site (one return address),
     # the smallest of each group are re-run with backtrace() per allocation, and only those are keyed
     findings = {}
@@ -992,20 +1220,24 @@ def _run(ctx, drv, mon, workdir, t0):
                     out.append(kk == k and key in [x[0] for x in attribute(cc, oo, kk, sym, parser_y)])
                 return out
             data, tested = c05.ddmin(c.data, test, budget_rounds=14 if thorough else 9)
-        what = {"leak": "blocks allocated by libnev code are still allocated after program_delete/vm_delete returned",
+        what = {"hostmem": "libnev freed (or wrote) memory that belongs to the host application: argument strings handed to "
+                           "nev_prepare_argc_argv / prog->params[]",
+                "leak": "blocks allocated by libnev code are still allocated after program_delete/vm_delete returned",
                 "reject": "the allocation trace is not executable (double free / free of unknown block / realloc of dead block)"}[k]
         ctx.violation(key, "%s: %s; site: %s" % (what, o.monitor, (desc[0] if desc else "unknown")),
                       {"case": {"id": c.id, "class": c.cls, "meta": c.meta, "found_in_cases": len(lst), "shrink_runs": tested,
                                 "original_length": len(c.data), "outcome": o.outcome, "phases": o.phases},
                        "input": c05.show_input(data), "class": c.cls, "opts": c.opts,
                        "never_path": (c.path if c.path and c.path.startswith(common.REPO) else None),
-                       "expected": "extracted monitor: accept (every block allocated between program_new() and the return of program_delete() is freed exactly once)",
-                       "observed": {"monitor": o.monitor, "allocation_site": desc, "program_output": (o.out or "")[:400]}})
+                       "expected": "extracted monitor: accept (every block allocated between program_new() and the return of program_delete() is freed "
+                                   "exactly once; no free of a block that was not allocated on behalf of the program/VM; host buffers unchanged)",
+                       "observed": {"monitor": o.monitor, "allocation_site": desc, "program_output": (o.out or "")[:400],
+                                    "host_memory": o.host[:4], "vm_heap_before_vm_delete": o.heap[-3:]}})
     # second opinion: LeakSanitizer + ASan on the same inputs
     t_ls0 = time.time()
     lcases = [c for c in cases if not c.cls.startswith("nest-parser")]
     if not thorough:
-        lcases = [c for i, c in enumerate(lcases) if c.cls.startswith(("runtime", "kept", "use", "corpus", "ffi", "errpath:reducer", "errpath:enum"))
+        lcases = [c for i, c in enumerate(lcases) if c.cls.startswith(("runtime", "kept", "use", "corpus", "ffi", "errpath:reducer", "errpath:enum", "entry-args"))
                   or i % 4 == 0]
     ls = lsan_second_opinion(ctx, lcases, workdir, timeout)
     ls_counts = {"run": len(ls), "clean": 0, "leak": 0, "asan-error": 0, "other-abnormal": 0}
